@@ -49,10 +49,10 @@ theorem facts_match_subtract :
     ∧ Gms.Generated.C46.subtractDefaultPanics = true := by
   decide
 
-/-- `IntersectRanges` in the source still drops `newRange` (no assignment to `rang` in its second
-loop): the Impl model `intersectRanges` is the one that matches it (finding F-C46-a). When the
-one-line fix lands this obligation breaks and the model must follow. -/
-theorem facts_match_intersectRanges : Gms.Generated.C46.intersectRangesAssignsResult = false := by
+/-- `IntersectRanges` in the source assigns the running intersection back (`rang = newRange` in its
+second loop) — the repair of finding F-C46-a. If the assignment disappears again this obligation
+breaks and `fixed_intersectRanges_result_discarded` below is the replay. -/
+theorem facts_match_intersectRanges : Gms.Generated.C46.intersectRangesAssignsResult = true := by
   decide
 
 def showCut : Cut → String
@@ -488,34 +488,35 @@ theorem finding_ror_heap_witness :
   | crash => rw [h] at this; simp at this
   | fuel => rw [h] at this; simp at this
 
-theorem intersectRangesLoop_eq (n : Nat) (hn : 0 < n) : ∀ (rest : List Range) (rang : Range),
-    rang.length = n → (∀ r ∈ rest, r.length = n) → intersectRangesLoop rang rest = rang
+theorem intersectRangesLoopPreFix_eq (n : Nat) (hn : 0 < n) : ∀ (rest : List Range) (rang : Range),
+    rang.length = n → (∀ r ∈ rest, r.length = n) → intersectRangesLoopPreFix rang rest = rang
   | [], _, _, _ => rfl
   | rc :: rest, rang, h1, h2 => by
     have hrc : rc.length = n := h2 rc (by simp)
-    unfold intersectRangesLoop
+    unfold intersectRangesLoopPreFix
     rw [if_neg (by omega)]
     simp only
     rw [if_neg (by rw [Range.intersect_length (by omega)]; omega)]
-    exact intersectRangesLoop_eq n hn rest rang h1 (fun r hr => h2 r (by simp [hr]))
+    exact intersectRangesLoopPreFix_eq n hn rest rang h1 (fun r hr => h2 r (by simp [hr]))
 
-/-- **Finding `intersectRanges_result_discarded` (F-C46-a).** On ranges of one length the Impl
-model of `IntersectRanges` returns its first argument, whatever the others are. -/
-theorem intersectRanges_returns_first (n : Nat) (hn : 0 < n) (rang : Range) (rest : List Range)
+/-- **Repaired defect `intersectRanges_result_discarded` (F-C46-a).** Before the `fix:` commit, on
+ranges of one length `IntersectRanges` returned its first argument, whatever the others were. -/
+theorem intersectRangesPreFix_returns_first (n : Nat) (hn : 0 < n) (rang : Range) (rest : List Range)
     (h1 : rang.length = n) (h2 : ∀ r ∈ rest, r.length = n) :
-    intersectRanges (rang :: rest) = rang := by
-  unfold intersectRanges
+    intersectRangesPreFix (rang :: rest) = rang := by
+  unfold intersectRangesPreFix
   have hne : rang ≠ [] := by intro e; rw [e] at h1; simp at h1; omega
   have : (rang :: rest).dropWhile (fun rc => decide (rc.length = 0)) = rang :: rest := by
     simp [List.dropWhile, hne]
   rw [this]
-  exact intersectRangesLoop_eq n hn rest rang h1 h2
+  exact intersectRangesLoopPreFix_eq n hn rest rang h1 h2
 
-/-- Witness: `IntersectRanges([1,5], [3,9])` contains the key 1, which is not in `[3,9]`. -/
-theorem finding_intersectRanges_result_discarded :
+/-- Witness of the repaired defect: the pre-fix `IntersectRanges([1,5], [3,9])` contained the key 1,
+which is not in `[3,9]`; the repaired function does not. -/
+theorem fixed_intersectRanges_result_discarded :
     ∃ (rs : List Range) (v : Tuple),
-      Range.mem (intersectRanges rs) v = true ∧ rs.all (fun r => Range.mem r v) = false
-      ∧ Range.mem (intersectRangesSpec rs) v = false :=
+      Range.mem (intersectRangesPreFix rs) v = true ∧ rs.all (fun r => Range.mem r v) = false
+      ∧ Range.mem (intersectRanges rs) v = false :=
   ⟨[[ColRange.closed 1 5], [ColRange.closed 3 9]], [keyPt 1], by decide, by decide, by decide⟩
 
 theorem intersectRangesSpecLoop_sound (n : Nat) (hn : 0 < n) : ∀ (rest : List Range) (rang : Range),
@@ -551,21 +552,28 @@ theorem intersectRangesSpec_sound (n : Nat) (hn : 0 < n) (rs : List Range) (hne 
     rw [intersectRangesSpecLoop_sound n hn rest rang h1 (fun r hr => h r (by simp [hr])) v]
     simp
 
-/-- Guarded statement (`¬Region`): when the first range is contained in all the others — the only
-situation in which returning it is right — `IntersectRanges` denotes the intersection. -/
-theorem intersectRanges_partial (n : Nat) (hn : 0 < n) (rang : Range) (rest : List Range)
-    (h1 : rang.length = n) (h2 : ∀ r ∈ rest, r.length = n)
-    (hsub : ∀ r ∈ rest, rang.isSubsetOf r = true) (v : Tuple) :
-    Range.mem (intersectRanges (rang :: rest)) v = (rang :: rest).all (fun r => Range.mem r v) := by
-  rw [intersectRanges_returns_first n hn rang rest h1 h2]
-  simp only [List.all_cons]
-  cases hm : Range.mem rang v with
-  | false => simp
-  | true =>
-    simp only [Bool.true_and]
-    symm
-    rw [List.all_eq_true]
-    intro r hr
-    exact Range.isSubsetOf_sound (hsub r hr) v hm
+theorem intersectRangesLoop_eq_spec : ∀ (rest : List Range) (rang : Range),
+    intersectRangesLoop rang rest = intersectRangesSpecLoop rang rest
+  | [], _ => rfl
+  | rc :: rest, rang => by
+    unfold intersectRangesLoop intersectRangesSpecLoop
+    simp only [intersectRangesLoop_eq_spec rest]
+
+/-- The Impl model of the repaired `IntersectRanges` is the Spec. -/
+theorem intersectRanges_eq_spec (rs : List Range) : intersectRanges rs = intersectRangesSpec rs := by
+  unfold intersectRanges intersectRangesSpec
+  split <;> simp [intersectRangesLoop_eq_spec]
+
+/-- **Full statement (holds since the `fix:` commit):** `IntersectRanges` denotes the intersection of
+all its (same-length, non-nil) arguments. -/
+theorem intersectRanges_sound (n : Nat) (hn : 0 < n) (rs : List Range) (hne : rs ≠ [])
+    (h : ∀ r ∈ rs, r.length = n) (v : Tuple) :
+    Range.mem (intersectRanges rs) v = rs.all (fun r => Range.mem r v) := by
+  rw [intersectRanges_eq_spec]
+  exact intersectRangesSpec_sound n hn rs hne h v
+
+example : Range.mem (intersectRanges [[ColRange.closed 1 5], [ColRange.closed 3 9]]) [keyPt 4] = true
+    ∧ Range.mem (intersectRanges [[ColRange.closed 1 5], [ColRange.closed 3 9]]) [keyPt 1] = false := by
+  decide
 
 end Gms.C46
